@@ -655,6 +655,14 @@ func GenSession(prop string, seed uint64, thorough bool) *Scenario {
 				continue
 			}
 			ms := g.pick(10, 30, 80)
+			// while the listener sleeps the client's single data-request pipeline is blocked, pongs included: the
+			// listener must stay well inside the ping timeout or it becomes a (legitimate) cause of ping timeouts
+			for ms > 5 && ms+4*c.LatencyMs+c.PollGapMs+maxInt(c.PongDelayMs) >= pt/2 {
+				ms /= 2
+			}
+			if ms+4*c.LatencyMs+c.PollGapMs+maxInt(c.PongDelayMs) >= pt/2 {
+				continue
+			}
 			t := g.rng(50, sc.HorizonMs/2)
 			c.Sends = append(c.Sends, ClientMsg{AtMs: t, ID: c.Name + ".slow", Size: 10})
 			nth := 1
